@@ -34,6 +34,11 @@ def gen_cases(tier, seed):
         cases.append({'scenario': ['deadline-sweep', 'deadline-sweep', 'stream-close'][i % 3], 'mode': 'async' if i % 4 == 1 else 'sync',
                       'workers': r.choice([1, 2, 3]), 'victims': r.choice([1, 2, 4]), 'witnesses': r.choice([1, 2]), 'rounds': 3 if tier == 'quick' else 4,
                       'capacity': r.choice([1, 1, 2, 4, 16, 64]), 'batch': r.choice([0, 0, 3]), 'seed': r.randrange(1 << 30)})
+    # the same through process workers (onboarding thread, pipes, pickling) -- fewer, they cost a process start each
+    for i in range(8 if tier == 'quick' else 160):
+        r = random.Random(rng.randrange(1 << 30))
+        cases.append({'scenario': ['deadline-sweep', 'stream-close'][i % 2], 'mode': 'async' if i % 4 == 3 else 'sync', 'workers': r.choice([1, 2]), 'victims': r.choice([1, 2]),
+                      'witnesses': 1, 'rounds': 2, 'capacity': r.choice([1, 2, 8]), 'batch': 0, 'process': True, 'seed': r.randrange(1 << 30)})
     return cases
 
 
@@ -54,7 +59,12 @@ def run_case(case):
     obs = {'lifetimes': 1, 'abandoned_calls': 0, 'abandoned_result_seen_before_cancel': 0, 'abandoned_result_seen_after_cancel': 0,
            'abandoned_never_seen': 0, 'witness_requests': 0, 'streams_closed_early': 0, 'pending_at_close': 0, 'cancelled_tasks': 0, 'final_calls': 0}
     kw = {'batch_size': case['batch'], 'batch_wait_time': 0.001} if case['batch'] else {}
-    servlet = ThreadServlet(ST.TagWorker, tag='A', num_threads=case['workers'], **kw)
+    if case.get('process'):
+        from mpservice.mpserver import ProcessServlet
+
+        servlet = ProcessServlet(ST.TagWorker, cpus=[None] * case['workers'], tag='A')
+    else:
+        servlet = ThreadServlet(ST.TagWorker, tag='A', num_threads=case['workers'], **kw)
     is_async = case['mode'] == 'async'
     server = (AsyncServer if is_async else Server)(servlet, capacity=case['capacity'])
     shadow = SH.install_ledger_shadow(server)
@@ -338,7 +348,7 @@ def run_case(case):
                       'abandoned_calls': obs['abandoned_calls'], 'seen_before_cancel': obs['abandoned_result_seen_before_cancel'],
                       'seen_after_cancel': obs['abandoned_result_seen_after_cancel'], 'streams_closed_early': obs['streams_closed_early'],
                       'witness_requests': obs['witness_requests'], 'site_hits': st['site_hits']}}
-    if viol:
+    if viol or case.get('process'):
         res['exit_after'] = True
     return res
 
